@@ -145,6 +145,10 @@ def run_driver(lines):
     return out.split("\n")[:-1] if out.endswith("\n") else out.split("\n")
 
 
+import shutil as _sh
+_PRLIMIT = _sh.which("prlimit")
+
+
 def _limits():
     import resource
     # a defective tree must not be able to eat the machine: 6 GiB of address space, 10 min of CPU
@@ -169,8 +173,13 @@ def run_impl(binp, cases, extra_args=(), timeout_per_batch=None):
         # watchdog: the harness does > 50 000 lines/s; a batch that needs 20x longer is hung
         tmo = timeout_per_batch or (max(20, len(lines) // 2500) if crashes == 0 else 15)
         try:
-            p = subprocess.run([binp] + list(extra_args), input="\n".join(lines) + "\n",
-                               capture_output=True, text=True, timeout=tmo, preexec_fn=_limits)
+            if _PRLIMIT:
+                # same limits as _limits(), without forking this (large) process through a preexec_fn
+                p = subprocess.run([_PRLIMIT, f"--as={6 << 30}", "--cpu=600", binp] + list(extra_args),
+                                   input="\n".join(lines) + "\n", capture_output=True, text=True, timeout=tmo)
+            else:
+                p = subprocess.run([binp] + list(extra_args), input="\n".join(lines) + "\n",
+                                   capture_output=True, text=True, timeout=tmo, preexec_fn=_limits)
             out, rc, why = p.stdout, p.returncode, None
             if rc != 0:
                 why = f"exit{rc}"
@@ -200,11 +209,11 @@ def run_impl(binp, cases, extra_args=(), timeout_per_batch=None):
     return results
 
 
-def run_model(cases):
+def run_model(cases, timeout_per_batch=None):
     """run the cases through the model driver.  The model contains the *translated* index helpers, so
     on a defective tree it can misbehave too (e.g. enumerate a 2^64-element range): it runs under the
     same watchdog as the harness; a case on which it crashes gets the trace `None`."""
-    res = run_impl(DRIVER, cases)
+    res = run_impl(DRIVER, cases, timeout_per_batch=timeout_per_batch)
     out = []
     for c, r in zip(cases, res):
         if r and (r[-1].startswith("CRASH:") or r[0] == "NOT-RUN"):
